@@ -37,6 +37,7 @@ TTamper == IsEvent("tamper") /\ Live /\ Tamper(Rec[l].d, Rec[l].off, Rec[l].kind
 TReadBegin == IsEvent("read_begin") /\ Live /\ ReadBegin(Rec[l].s, Rec[l].len)
 TReadEnd == IsEvent("read_end") /\ Live /\ ReadEnd(Rec[l].s, Rec[l].ok)
 TDelivered == IsEvent("delivered") /\ Live /\ Delivered(Rec[l].s, Rec[l].id, Rec[l].size, Rec[l].ok)
+TCallback == IsEvent("callback") /\ Live /\ HandlerCall(Rec[l].s)
 TPeerConnected == IsEvent("peer_connected") /\ Live /\ PeerConnected(Rec[l].s)
 TPeerDisconnected == IsEvent("peer_disconnected") /\ Live /\ PeerDisconnected(Rec[l].s)
 TDisconnectSocket == IsEvent("disconnect_socket") /\ Live /\ Dropped(Rec[l].s)
@@ -53,7 +54,7 @@ TOp == IsEvent("op") /\ Live /\ UNCHANGED avars
 Report == viol' = "" \/ (PrintT(<<"CLAUSE", viol', l>>) /\ FALSE)
 
 TraceStep == TReset \/ TActOne \/ TSendData \/ TQueue \/ TRawSend \/ TTamper \/ TReadBegin
-             \/ TReadEnd \/ TDelivered \/ TPeerConnected \/ TPeerDisconnected \/ TDisconnectSocket
+             \/ TReadEnd \/ TDelivered \/ TCallback \/ TPeerConnected \/ TPeerDisconnected \/ TDisconnectSocket
              \/ TConnectErr \/ TWsa \/ TSocketDisconnected \/ TQuiesce \/ TPanic \/ TOp
 
 TraceNext == TraceStep /\ Report
